@@ -138,6 +138,35 @@ def run_c09(tier):
         case = {"args": ["metadata", repr(v)]}
         expect_exc("load_entity_schema/ill-typed-version", _call(index.load_entity_schema, "metadata", v, EntityType.request), index.UnknownEntity, case, (repr(v),))
         expect_exc("load_request_schema/ill-typed-version", _call(index.load_request_schema, 3, v), index.UnknownEntity, case, (repr(v),))
+    # 3c. histories: every sequence up to length 3 over valid and invalid lookups (the same one repeated included);
+    # each call is judged by its own arguments, whatever was looked up before
+    import itertools
+
+    def top_of(api, ver, typ):
+        return top_level(mods[(api, ver, typ)][0], typ)[0]
+
+    letters = [
+        (index.load_entity_schema, ("metadata", 12, ET["request"]), top_of("metadata", 12, "request")),
+        (index.load_entity_schema, ("metadata", 13, ET["request"]), index.UnknownEntity),
+        (index.load_entity_schema, ("fetch", 4, ET["response"]), top_of("fetch", 4, "response")),
+        (index.load_request_schema, (3, 12), top_of("metadata", 12, "request")),
+        (index.load_request_schema, (3, 13), index.UnknownEntity),
+        (index.load_response_schema, (999, 0), index.UnknownAPIKey),
+    ]
+    nseq = 0
+    for d in (1, 2, 3):
+        for seq in itertools.product(range(len(letters)), repeat=d):
+            nseq += 1
+            for step, li in enumerate(seq):
+                fn, args, want = letters[li]
+                res = _call(fn, *args)
+                case = {"entry": f"{fn.__name__}{args[:2]}", "args": [fn.__name__, *map(str, args)], "lookup_history": [[letters[i][0].__name__, *map(str, letters[i][1])] for i in seq], "step": step}
+                if isinstance(want, type) and issubclass(want, Exception):
+                    if not expect_exc(f"{fn.__name__}/after-other-lookups", res, want, case, (d, nseq)):
+                        break
+                elif not expect_ok(f"{fn.__name__}/after-other-lookups", res, want, case, (d, nseq)):
+                    break
+    acc.add("lookup_histories", nseq)
     # 4. the generator's own index builder on the current package equals the shipped maps
     acc.add("evaluations")
     try:
